@@ -180,6 +180,23 @@ def _dtype_block(V, rng, tier):
         except Exception as ex:
             V.fail("cat of operands of two dtypes raises %s" % type(ex).__name__, dict(desc, exc=str(ex)[:200]))
         dist["cat mixed dtypes"] = dist.get("cat mixed dtypes", 0) + 1
+    # three operands, the widest dtype at each position in turn (torch.cat promotes over ALL operands)
+    triples = [(a, b) for a, b in itertools.product(dts, dts) if a != b and torch.promote_types(a, b) == b]; rng.shuffle(triples)
+    for j, (lo_, hi_) in enumerate(triples[:(5 if tier == "quick" else len(triples))] * (1 if tier == "quick" else 3)):
+        pos = j % 3; kinds = [lo_, lo_, lo_]; kinds[pos] = hi_
+        d = rng.choice([1, 2, 3]); N = [rng.choice([1, 2, 3]) for _ in range(d)]; dim = rng.randrange(d)
+        ops = []
+        for dt_ in kinds:
+            Nk = list(N); Nk[dim] = rng.choice([1, 2]); ops.append(mk(dt_, Nk, [1] + [rng.choice([1, 2]) for _ in range(d - 1)] + [1]))
+        pd = torch.promote_types(lo_, hi_)
+        desc = {"cat_three_mixed_dtype": True, "dtypes": [str(k_) for k_ in kinds], "N": [[int(v) for v in o.N] for o in ops], "dim": dim}
+        try:
+            r = torchtt.cat(tuple(ops), dim); ref = torch.cat(tuple(o.full().to(pd) for o in ops), dim)
+            if any(c.dtype != pd for c in r.cores): V.fail("cat of three operands, the widest dtype %s: the result does not have the promoted dtype" % ["first", "in the middle", "last"][pos], dict(desc, got=[str(c.dtype) for c in r.cores], want=str(pd)))
+            elif list(r.full().shape) != list(ref.shape) or not torch.equal(r.full(), ref): V.fail("cat of three operands of mixed dtypes differs from the dense concatenation", desc)
+        except Exception as ex:
+            V.fail("cat of three operands of mixed dtypes raises %s" % type(ex).__name__, dict(desc, exc=str(ex)[:200]))
+        dist["cat three operands, widest " + ["first", "middle", "last"][pos]] = dist.get("cat three operands, widest " + ["first", "middle", "last"][pos], 0) + 1
     for j in range(6 if tier == "quick" else 40):
         ttm = j % 2 == 0; dt = [torch.float64, torch.float32][j % 3 == 2]
         d = rng.choice([1, 2, 3]); N = [rng.choice([1, 2, 3]) for _ in range(d)]; M = [rng.choice([1, 2]) for _ in range(d)]
